@@ -92,6 +92,15 @@ def streamImplMachine {σ : Type} (D : CoreDesc σ) (w : Nat) : Machine (Pool (W
         match D.K.remaining s.core with
         | some v => (p, "rem " ++ toString v)
         | none => (p, "rem none")
+      | ["aliasks", n] =>
+        -- a fresh object through the crate's public alias for this type: the first `n` keystream bytes
+        match n.toNat? with
+        | some k =>
+          (match MemWr.applyMem D.K w (Wr.fromCore D.K D.init) (IOBuf.inplace (zeros k)) with
+           | .ok out _ => (p, "out " ++ toHex out)
+           | .err _ _ => (p, "err")
+           | .panic => (p, "panic"))
+        | none => (p, bad)
       | ["corestate"] => (p, "state " ++ toHex (D.ivState s.core))
       | ["fromcore", n] =>
         match n.toNat? with
@@ -215,6 +224,11 @@ def streamSpecMachine {σ : Type} (D : CoreDesc σ) : Machine (Pool Nat) where
         match D.limit with
         | some lim => (p, "rem " ++ toString (lim - (q + bs - 1) / bs) ++ "|none")
         | none => (p, "rem none")
+      | ["aliasks", n] =>
+        -- the documented keystream from offset 0 (a fresh object of the public alias type)
+        match n.toNat? with
+        | some k => (p, "out " ++ toHex (Spec.ksBytes (ksByteOf D) 0 k))
+        | none => (p, bad)
       | ["corestate"] =>
         if q % bs = 0 then (p, "state " ++ toHex (D.specState (q / bs))) else (p, "?")
       | ["fromcore", n] =>
